@@ -27,7 +27,7 @@ import (
 	"verif/engine/interp"
 )
 
-const repoDir = "/repo"
+var repoDir = "/repo"
 
 var verifDir = "/verif"
 
@@ -42,6 +42,7 @@ type TierOpts struct {
 	ChanScale   int      `json:"chan_scale"`
 	ChanScaleMin int     `json:"chan_scale_min"`
 	MakeCap     int      `json:"make_cap"`
+	Race        bool     `json:"race"`
 	WallS       int      `json:"wall_s"`
 	Skip        bool     `json:"skip"`
 	Params      map[string]int `json:"params"`
@@ -100,6 +101,7 @@ type ReplayFile struct {
 	Trace    []int64           `json:"trace"`
 	Params   map[string]int    `json:"params"`
 	Repeat   int               `json:"repeat,omitempty"` // native runs to try (schedule-dependent counterexamples)
+	Race     bool              `json:"race,omitempty"`   // replay under the Go race detector
 }
 
 func main() {
@@ -108,6 +110,10 @@ func main() {
 	}
 	if d := os.Getenv("VERIF_DIR"); d != "" {
 		verifDir = d
+	}
+	if d := os.Getenv("VCHECK_REPO"); d != "" {
+		// development aid: check a scratch worktree instead of /repo (never used by registered commands)
+		repoDir = d
 	}
 	switch os.Args[1] {
 	case "run":
@@ -371,7 +377,7 @@ func cmdRun(args []string) int {
 				continue
 			}
 			opts := interp.Options{Workers: nw, Solver: "z3", TimeoutMs: 10000, Unwind: 64, StepBudget: 20_000_000, Trace: *trace,
-				KnownPanicSites: sites, Explore: to.Explore, Livelock: to.Livelock, SchedBudget: to.SchedBudget, ChanScale: to.ChanScale, ChanScaleMin: to.ChanScaleMin, MakeCap: to.MakeCap, Params: to.Params}
+				KnownPanicSites: sites, Explore: to.Explore, Livelock: to.Livelock, SchedBudget: to.SchedBudget, ChanScale: to.ChanScale, ChanScaleMin: to.ChanScaleMin, MakeCap: to.MakeCap, Race: to.Race, Params: to.Params}
 			if *tier == "thorough" {
 				opts.TimeoutMs = 60000
 			}
@@ -440,6 +446,7 @@ func cmdRun(args []string) int {
 			if to.Explore {
 				rc.repeat = 40
 			}
+			rc.race = to.Race
 			for id, kv := range rep.Known {
 				he.Known = append(he.Known, id)
 				if _, ok := knownSeen[id]; !ok {
@@ -462,7 +469,9 @@ func cmdRun(args []string) int {
 			}
 			for _, v := range rep.Violations {
 				key := v.Kind + "|" + v.ID
-				if v.Kind != "assert" {
+				if v.Kind == "race" {
+					key = v.Kind + "|" + v.ID
+				} else if v.Kind != "assert" {
 					key = v.Kind + "|" + v.Msg
 					if v.Panic != nil {
 						key = v.Kind + "|" + v.Panic.Site
@@ -644,12 +653,13 @@ type replayCtx struct {
 	harness string
 	params  map[string]int
 	repeat  int
+	race    bool
 }
 
 // writeReplay turns a solver model into a replay file.
 func writeReplay(rc replayCtx, v *interp.Violation, n int) string {
 	rf := ReplayFile{Property: rc.prop, Unit: rc.unit.Name, Pkg: rc.unit.Pkg, Files: rc.unit.Files, Harness: rc.harness, Kind: v.Kind, ID: v.ID, Msg: v.Msg,
-		Values: map[string]string{}, Readable: map[string]string{}, Trace: v.Trace, Params: rc.params, Repeat: rc.repeat}
+		Values: map[string]string{}, Readable: map[string]string{}, Trace: v.Trace, Params: rc.params, Repeat: rc.repeat, Race: rc.race}
 	if v.Kind == "known" {
 		rf.Kind = "known"
 	}
@@ -767,7 +777,11 @@ func replayNative(path string, verbose bool) (bool, string) {
 	for k, v := range rf.Params {
 		env = append(env, fmt.Sprintf("VERIF_PARAM_%s=%d", k, v))
 	}
-	build := exec.Command("go", "test", "-vet=off", "-c", "-o", bin, "-overlay", ovPath, rf.Pkg)
+	buildArgs := []string{"test", "-vet=off", "-c", "-o", bin, "-overlay", ovPath}
+	if rf.Kind == "race" || rf.Race {
+		buildArgs = append(buildArgs, "-race")
+	}
+	build := exec.Command("go", append(buildArgs, rf.Pkg)...)
 	build.Dir = repoDir
 	build.Env = env
 	if out, err := build.CombinedOutput(); err != nil {
@@ -868,12 +882,20 @@ func judgeReplay(rf *ReplayFile, txt string) (bool, string) {
 			return true, result
 		}
 		return false, "no panic natively (result: " + result + ")"
+	case "race":
+		if strings.Contains(txt, "WARNING: DATA RACE") {
+			return true, "the Go race detector reports a data race natively"
+		}
+		return false, "no data race reported natively (result: " + result + " " + crashed + ")"
 	case "deadlock", "livelock":
 		if result == "hang" || strings.HasPrefix(crashed, "hang") || strings.Contains(crashed, "all goroutines are asleep") {
 			return true, "native run does not terminate (20 s)"
 		}
 		return false, "no hang natively (result: " + result + " " + crashed + ")"
 	case "known":
+		if rf.Race && strings.Contains(txt, "WARNING: DATA RACE") {
+			return true, "data race reported natively"
+		}
 		if len(failed) > 0 || crashed != "" || strings.HasPrefix(result, "panic") || result == "hang" {
 			return true, strings.TrimSpace(strings.Join(failed, ",") + " " + crashed + " " + result)
 		}
